@@ -1,11 +1,12 @@
 """C04 — exported files are well-formed modules (layout/quoting/unraw/escaping clauses)."""
 from rules import templates as T
+from rules import merge_rules as MR
 
 ASSUMPTIONS = ["parsing every possible output under a TypeScript grammar is NOT decided"]
 
 
 def run(ctx):
-    out = [T.quoting_rule(ctx.syn, "C04"), T.unraw_rule(ctx.syn, "C04"), T.quoted_sink_rule(ctx.syn, "C04")]
+    out = [T.quoting_rule(ctx.syn, "C04"), T.unraw_rule(ctx.syn, "C04"), T.quoted_sink_rule(ctx.syn, "C04"), MR.writer_reader_rule(ctx.syn, "C04", rule="C04.R5")]
     for fs in ctx.featuresets():
         r = T.layout_rule(ctx.mir(fs)["ts_rs"], "C04")
         if fs != "default":
